@@ -238,7 +238,9 @@ def target_stage_dispatch():
 
         # interpolation
         flip = DF.opaque("flip")
-        ns = {"Akima1DInterpolator": lib("Akima1DInterpolator"), "CubicSpline": lib("CubicSpline"), "PchipInterpolator": lib("PchipInterpolator"), "flip": flip, "ZHITError": ZHITError}
+        import functools
+        ns = {"Akima1DInterpolator": lib("Akima1DInterpolator"), "CubicSpline": lib("CubicSpline"), "PchipInterpolator": lib("PchipInterpolator"), "flip": flip, "ZHITError": ZHITError,
+              "partial": functools.partial, "functools": functools}
         O.load(IN, ["_interpolate_phase"], ns)
         ip = ns["_interpolate_phase"]
         x, y = flip(lnw), flip(phase)
